@@ -11,7 +11,7 @@
    Property theorems only; each is closed by [exact lemma] and followed by Print Assumptions. *)
 From GL Require Import Conc.RefLoop Conc.RefLoopProofs Conc.VersionLayer Conc.VersionLayerProofs
   Gen.Consts Gen.InstRefLoop.
-From GL Require Store.Sweep Store.SweepProofs Store.SweepInv Store.SweepOpen Store.Crash.
+From GL Require Store.Sweep Store.SweepProofs Store.SweepInv Store.SweepOpen Store.SweepFiles Store.Crash.
 From Coq Require Import NArith List Bool Permutation.
 Import ListNotations.
 Open Scope N_scope.
@@ -226,20 +226,31 @@ Proof.
   intros l v0 ru ops s v fl bad Hl Hv Hr Ho Hin.
   pose proof (SweepOpen.run_Good ops _ _ (SweepOpen.boot_Good l v0 ru Hl Hv) Hr) as H.
   unfold SweepInv.Good in H. rewrite Ho in H.
-  exact (proj2 (SweepOpen.open_db_spec v fl bad s H Hin)).
+  intros s' Ho'. destruct (proj2 (SweepOpen.open_db_spec v fl bad s H Hin) Ho') as (E1&E2&_). split; assumption.
 Qed.
 Print Assumptions C07_open_exact.
+
+(* 12. No residue.  For every listing, every well-formed manifest content and EVERY sequence of steps (flush ok /
+      failed, compaction ok / failed / reverted / abandoned, transaction commit / discard / failed commit + discard,
+      manifest rotation with a failing Remove, frozen-journal drop, readers pinning versions and tables, Close and
+      Open in between, any Remove failing): at every quiescent point - the DB open, no job, no reader, nothing
+      left for the loop, no frozen buffer - the listing is the exact set (tables of the version, the journal, the
+      manifest) plus ONLY the files the ghost field [residue] names; each entry of the field carries its reason
+      (its Remove failed; a revert stopped at an earlier failing Remove; discard kept it because the fresh manifest
+      could not be written; its job ended while committing or the DB was closed before the loop got to it; a
+      journal numbered above the new one found by Open).  Together with theorem 11 (the next Open leaves exactly
+      the exact set): every file that is not needed is removed, at the latest by the next successful Open. *)
+Theorem C07_no_residue : forall l v ru ops s,
+  NoDup l -> SweepInv.view_wf v -> Sweep.run (Sweep.boot l v ru) ops = Some s -> Sweep.quiescent s = true ->
+  forall f, In f (Sweep.files s) <-> In f (Sweep.exact_set s) \/ In f (map fst (Sweep.residue s)).
+Proof. exact SweepFiles.no_residue. Qed.
+Print Assumptions C07_no_residue.
 
 (* Clauses of C07 that are NOT theorems here (full statements; they are evaluated by the property
    oracle of harness/cmd/c07 on the implementation over the checker-owned storage, see props/C07.json):
    - the API discipline vl_disciplined itself: that db.go / db_compaction.go / db_transaction.go /
      db_iter.go / db_snapshot.go only call the version layer in this way is read off the code and
      exercised by the DB-level oracle, not proved.
-   - C07_no_residue, first half (the second half is theorem 11): at every quiescent point of a running DB (no
-     job, no reader, nothing left for the loop, no frozen buffer) the listing is the exact set plus ONLY files
-     the model's ghost field [residue] names, each with its reason - its Remove failed, a revert stopped at an
-     earlier failing Remove, discard kept it, its job ended while committing.  The model computes the field;
-     that it accounts for every file is evaluated (Examples below; the harness' listing oracles), not proved.
    - that the manifest never names a missing table (Open never reports ErrMissingFiles after a clean run):
      follows from theorem 10 for the tables the views name, given that they exist at the start; not stated.
    - that the step machine's program order is the code's (e.g. dropFrozenMem only after the flush commit):
